@@ -53,6 +53,11 @@ type Contract struct {
 	Line         int
 	Asserts      []Clause
 	Defines      []Clause // iface: definitional postconditions (assumed at calls, not checked on implementers)
+	SplitExpr    *Clause  // case split: the function is verified once per value
+	SplitVals    []string
+	exhaustive   *Clause
+	exhaustiveReq int
+	splitCase    bool
 	Views        []Clause // type: definitional axioms tying ghost observers to the representation (assumed)
 }
 
@@ -62,7 +67,7 @@ var clauseKW = map[string]bool{
 	"func": true, "iface": true, "type": true, "lemma": true, "property": true, "requires": true, "ensures": true,
 	"panics_if": true, "panics_only_if": true, "panics_iff": true, "maypanic": true, "modifies": true,
 	"let": true, "loop": true, "invariant": true, "decreases": true, "inline": true, "trusted": true,
-	"recover": true, "bounded_view": true, "end": true, "defines": true, "view": true,
+	"recover": true, "bounded_view": true, "end": true, "defines": true, "view": true, "split": true,
 }
 
 type ContractSet struct {
@@ -214,6 +219,16 @@ func parseContractText(text, path, pkg string, cs *ContractSet) error {
 				c.Trusted = true
 			case "recover":
 				c.Recover = true
+			case "split":
+				i := strings.LastIndex(rc.text, " in ")
+				if i < 0 {
+					return fmt.Errorf("%s:%d: split needs 'expr in v1, v2'", path, rc.line)
+				}
+				cc := Clause{Text: strings.TrimSpace(rc.text[:i]), File: base, Line: rc.line}
+				c.SplitExpr = &cc
+				for _, v := range strings.Split(rc.text[i+4:], ",") {
+					c.SplitVals = append(c.SplitVals, strings.TrimSpace(v))
+				}
 			case "defines":
 				c.Defines = append(c.Defines, cl)
 			case "view":
